@@ -53,7 +53,7 @@ type c38Case struct {
 	Idx    int        `json:"idx"`
 	Kind   string     `json:"kind"`  // hs | cmd
 	User   string     `json:"user"`  // cmd: which user logs in (ns1_rw / ns2_rw keep-session namespace)
-	Setup  string     `json:"setup"` // "", prep, tx, tx+prep, noac
+	Setup  string     `json:"setup"` // "", prep (4 statements), prep1 (statement 0 only), tx, tx+prep, noac
 	Frames []c38Frame `json:"frames"`
 }
 
@@ -486,8 +486,11 @@ func c38GenCommands(seed uint64) map[string][]c38Case {
 	// ---- STMT_EXECUTE / SEND_LONG_DATA / RESET / CLOSE against the prepared set
 	out2 := c38GenStmt(seed)
 	for g, frames := range out2 {
-		per := 8
-		pack(g, "ns1_rw", "prep", per, frames)
+		setup := "prep"
+		if g == "cmd/stmt-exec-types" {
+			setup = "prep1" // these frames only use statement 0; most of them end the connection
+		}
+		pack(g, "ns1_rw", setup, 8, frames)
 	}
 	pack("cmd/stmt-exec-trunc-tx", "ns1_rw", "tx+prep", 8, out2["cmd/stmt-exec-trunc"])
 	ksTypes := out2["cmd/stmt-exec-types"]
@@ -499,7 +502,7 @@ func c38GenCommands(seed uint64) map[string][]c38Case {
 		}
 		ksTypes = sub
 	}
-	pack("cmd/stmt-exec-types-ks", "ns2_rw", "tx+prep", 8, ksTypes)
+	pack("cmd/stmt-exec-types-ks", "ns2_rw", "tx+prep1", 8, ksTypes)
 	return out
 }
 
@@ -577,6 +580,9 @@ func c38GenStmt(seed uint64) map[string][]c38Frame {
 	for tp := 0; tp < 256; tp++ {
 		for _, un := range []byte{0, 0x80} {
 			for n := 0; n <= 13; n++ {
+				if n > 1 && kit.Tier() != "thorough" && c38TypeClass(byte(tp)) == "unknown" {
+					break // quick: type codes the binder does not know all take the same branch
+				}
 				v := make([]byte, n)
 				for i := range v {
 					v[i] = byte(n) // first byte = n: for date/time/string types it is the stated length
